@@ -1,9 +1,9 @@
 SPECIFICATION Spec
 CONSTANTS
-  K = 100663296
-  PerFile = 4096
+  K = 50331648
+  PerFile = 1024
   PerRun = 256
-  Tol = 4194304
+  Tol = 1048576
 INVARIANT Report
 POSTCONDITION Accepted
 CHECK_DEADLOCK FALSE
